@@ -118,6 +118,7 @@ def install_env(m, env):
         frame = pd.DataFrame([list(rows.values())], index=[ts], columns=pd.MultiIndex.from_tuples(list(rows.keys())), dtype=object)
         m._data = frame
         m.set_market_status(AaveMarketStatus(ts, None), price)
+        m._data = None      # the one-row frame was only the source of that lookup
     else:
         m.set_market_status(AaveMarketStatus(ts, data), price)
     m.is_open = bool(env.get("isOpen", True))
